@@ -789,20 +789,24 @@ func (c *candidateBase) extensionsEqual(other []CandidateExtension) bool {
 	freq1 := make(map[CandidateExtension]int)
 	freq2 := make(map[CandidateExtension]int)
 
-	if len(c.extensions) != len(other) {
+	// Compare like with like: other comes from Extensions(), which includes
+	// the tcptype pseudo-extension, so ours has to include it as well.
+	mine := c.Extensions()
+
+	if len(mine) != len(other) {
 		return false
 	}
 
-	if len(c.extensions) == 0 {
+	if len(mine) == 0 {
 		return true
 	}
 
-	if len(c.extensions) == 1 {
-		return c.extensions[0] == other[0]
+	if len(mine) == 1 {
+		return mine[0] == other[0]
 	}
 
-	for i := range c.extensions {
-		freq1[c.extensions[i]]++
+	for i := range mine {
+		freq1[mine[i]]++
 		freq2[other[i]]++
 	}
 
